@@ -354,7 +354,7 @@ func verifyRun(opts *RunOpts) (*Run, error) {
 			run.DFailing, run.DTotal, run.DRan = f, total, true
 		}
 	}
-	if opts.Prop == "C04" || opts.Prop == "C06" { // C06: WhenQueue release is observed by the same family
+	if opts.Prop == "C04" || opts.Prop == "C06" || opts.Prop == "C14" { // C06: WhenQueue release is observed by the same family; C14: one traced transition per queued mutation
 		f, total, err := runBoundedQueue(opts)
 		if err != nil {
 			run.StandinErrs = append(run.StandinErrs, [2]string{"queue", err.Error()})
